@@ -12,7 +12,7 @@ From Coq Require Import ZArith List Bool Permutation Lia.
 From PTK Require Import Lib.Sx Lib.Py Model.Document Model.BufferEdit Proofs.BufferEditFacts
   Proofs.C02_Base
   Model.C09_Kill Model.C09_KillPatched Proofs.C09_Ring Proofs.C09_KillFacts Proofs.C09_YankFacts
-  Proofs.C09_CutFacts Proofs.C09_LinesFacts.
+  Proofs.C09_CutFacts Proofs.C09_LinesFacts Proofs.C09_RingBound Proofs.C09_RegFacts Proofs.C09_BlockFacts.
 Import ListNotations.
 Open Scope Z_scope.
 
@@ -397,6 +397,103 @@ Theorem C09_kill_word_patched_exact : forall s arg rep pk,
           (fun del => if rep && pk then ctext (ring_get (sring s)) ++ del else del)).
 Proof. exact kill_word_patched_exact. Qed.
 Print Assumptions C09_kill_word_patched_exact.
+
+(* ---- round 4: the bounded ring (max_size a parameter), registers of any type, s / C / S ---- *)
+
+(* after ANY sequence of pushes (set_data) and rotations the ring holds at most
+   max_size entries, for every max_size m *)
+Theorem C09_ring_bounded : forall m ops r,
+  (length r <= m)%nat -> (length (rrun m ops r) <= m)%nat.
+Proof. intros m ops r. apply rrun_bounded. Qed.
+Print Assumptions C09_ring_bounded.
+
+(* a push with room keeps everything; a push on an EXACTLY full ring drops
+   exactly the oldest entry and nothing else *)
+Theorem C09_ring_push_full : forall m r d,
+  ((length r < m)%nat -> ring_set_n m r d = d :: r) /\
+  ((1 <= m)%nat -> length r = m -> ring_set_n m r d = d :: removelast r).
+Proof. intros m r d. split; [apply ring_set_n_room|apply ring_set_n_full]. Qed.
+Print Assumptions C09_ring_push_full.
+
+(* yank-pop (any number of rotations) on a full ring loses nothing *)
+Theorem C09_yank_pop_full_ring_loses_nothing : forall m k r,
+  length r = m -> Permutation (rotate_n k r) r /\ length (rotate_n k r) = m.
+Proof. exact rotations_lose_nothing. Qed.
+Print Assumptions C09_yank_pop_full_ring_loses_nothing.
+
+(* every command of the editor model (emacs and Vi, any argument, terminal
+   reports included) changes the ring by pushes and rotations only, so after any
+   command sequence the ring is within max_size *)
+Theorem C09_ring_bounded_sessions : forall cs s,
+  ring_evolves (sring s) (sring (run_steps s cs)) /\
+  ((length (sring s) <= MAX_SIZE)%nat -> (length (sring (run_steps s cs)) <= MAX_SIZE)%nat).
+Proof. intros cs s. split; [apply run_steps_ev|apply run_steps_bounded]. Qed.
+Print Assumptions C09_ring_bounded_sessions.
+
+(* registers holding data of any type (CHARACTERS / LINES / BLOCK): reg-y stores,
+   unchanged, the data (text and type) that TextObject.cut computed ... *)
+Theorem C09_vi_register_stores_cut_any_type : forall s orig ty r nd data,
+  is_register_name r = true ->
+  tobj_cut (mkdoc (btext (sb s)) (bcur (sb s))) (orig - bcur (sb s)) 0 (visual_tt ty) = Some (Some nd, data) ->
+  ctext data <> [] ->
+  exists s', vi_visual s (orig, ty) 4 r = (0, s') /\
+    sb s' = sb s /\ sring s' = sring s /\
+    reg_get (sregs s') r = Some data /\
+    (forall r', r' <> r -> reg_get (sregs s') r' = reg_get (sregs s) r').
+Proof. exact visual_register_yank_any. Qed.
+Print Assumptions C09_vi_register_stores_cut_any_type.
+
+(* ... and reg-p hands exactly the stored data to the paste *)
+Theorem C09_vi_register_paste_any_type : forall s r data mode n,
+  is_register_name r = true -> reg_get (sregs s) r = Some data ->
+  vi_paste_reg s r mode n = buf_paste s data mode n.
+Proof. exact register_paste_any. Qed.
+Print Assumptions C09_vi_register_paste_any_type.
+
+(* a register holding LINES data pasted n >= 1 times: n whole lines *)
+Theorem C09_vi_register_lines_paste : forall s r data (before : bool) n,
+  Inv (sb s) -> is_register_name r = true -> reg_get (sregs s) r = Some data ->
+  ctype data = LINES -> 1 <= n ->
+  let d := cur_doc s in
+  let at_ := if before then cursor_position_row d else cursor_position_row d + 1 in
+  exists s', vi_paste_reg s r (if before then VI_BEFORE else VI_AFTER) n = (0, s') /\
+    btext (sb s') = join [NL] (firstn (Z.to_nat at_) (lines d)
+                               ++ repeat_list (ctext data) (Z.to_nat n)
+                               ++ skipn (Z.to_nat at_) (lines d)) /\
+    sregs s' = sregs s /\ sring s' = sring s.
+Proof. exact register_lines_paste. Qed.
+Print Assumptions C09_vi_register_lines_paste.
+
+(* s and C store exactly what they remove; S / cc stores the whole line, line-wise *)
+Theorem C09_vi_s_C_S : forall s arg,
+  Inv (sb s) ->
+  killed true s (vi_subst_core s arg) (fun x => x) /\
+  killed true s (vi_bigC_core s) (fun x => x) /\
+  ring_get (sring (snd (vi_bigS_core s))) = mkclip (current_line (cur_doc s)) LINES.
+Proof. intros s arg Hi. split; [now apply vi_s_exact|]. split; [now apply vi_C_exact|apply vi_S_register]. Qed.
+Print Assumptions C09_vi_s_C_S.
+
+(* pasting BLOCK data n >= 1 times: whenever paste_clipboard_data returns a
+   document, its text is the join of a line list in which block line i has been
+   inserted n times into row cursor_row + i at the start column (cursor column for
+   P, one further for p; the row is padded with spaces up to it), every row
+   outside cursor_row .. cursor_row + k - 1 is unchanged, and rows that did not
+   exist are appended.  (That the Document constructor never refuses the result
+   is tied by correspondence, not proved.) *)
+Theorem C09_paste_block_n : forall d data mode n t' c',
+  valid d -> ctype data = BLOCK -> 1 <= n ->
+  doc_paste d data mode n = Some (t', c') ->
+  let row := cursor_position_row d in
+  let sc := cursor_position_col d + (if mode =? VI_BEFORE then 0 else 1) in
+  let parts := split_on NL (ctext data) in
+  exists res,
+    t' = join [NL] res /\
+    len res = Z.max (len (lines d)) (row + len parts) /\
+    (forall j, 0 <= j -> (j < row \/ row + len parts <= j) -> nthZ res j = nthZ (lines d) j) /\
+    (forall i, 0 <= i < len parts ->
+       nthZ res (row + i) = block_ins sc n (nthZ (lines d) (row + i)) (nth (Z.to_nat i) parts [])).
+Proof. exact doc_paste_block. Qed.
+Print Assumptions C09_paste_block_n.
 
 (* the hypotheses are satisfiable: C-k on "ab\ncd" at 0 kills "ab" *)
 Example C09_example_kill_line :
